@@ -15,25 +15,27 @@ def Dirty (p : PS) : Prop := p.errors ≠ [] ∨ p.oof = true
 structure Frame (p p' : PS) : Prop where
   ins : p'.inserts = p.inserts
   comps : p'.components = p.components
+  res : p'.reserves = p.reserves
+  nid : p'.nextId = p.nextId
   dirty : Dirty p → Dirty p'
 
-theorem Frame.rfl' (p : PS) : Frame p p := ⟨rfl, rfl, id⟩
+theorem Frame.rfl' (p : PS) : Frame p p := ⟨rfl, rfl, rfl, rfl, id⟩
 theorem Frame.trans {p q r : PS} (h1 : Frame p q) (h2 : Frame q r) : Frame p r :=
-  ⟨h2.ins.trans h1.ins, h2.comps.trans h1.comps, fun h => h2.dirty (h1.dirty h)⟩
+  ⟨h2.ins.trans h1.ins, h2.comps.trans h1.comps, h2.res.trans h1.res, h2.nid.trans h1.nid, fun h => h2.dirty (h1.dirty h)⟩
 
 theorem dirty_err (p : PS) (l : Nat) (c : String) (a : List Bytes) : Dirty (p.err l c a) := by
   left; simp [PS.err]
 theorem dirty_oof (p : PS) : Dirty p.outOfFuel := Or.inr rfl
 
 theorem frame_err (p : PS) (l : Nat) (c : String) (a : List Bytes) : Frame p (p.err l c a) :=
-  ⟨rfl, rfl, fun _ => dirty_err p l c a⟩
-theorem frame_oof (p : PS) : Frame p p.outOfFuel := ⟨rfl, rfl, fun _ => dirty_oof p⟩
+  ⟨rfl, rfl, rfl, rfl, fun _ => dirty_err p l c a⟩
+theorem frame_oof (p : PS) : Frame p p.outOfFuel := ⟨rfl, rfl, rfl, rfl, fun _ => dirty_oof p⟩
 theorem frame_noteIllegal (p : PS) (t : Token) : Frame p (p.noteIllegal t) := by
   unfold PS.noteIllegal; split
   · exact frame_err _ _ _ _
   · exact Frame.rfl' p
 theorem frame_toks (p : PS) (ts : List Token) : Frame p { p with toks := ts } :=
-  ⟨rfl, rfl, fun h => h⟩
+  ⟨rfl, rfl, rfl, rfl, fun h => h⟩
 theorem frame_next (p : PS) : Frame p p.next := by
   unfold PS.next
   split
@@ -338,16 +340,23 @@ def TablesGood (p : PS) : Prop :=
 
 def Good (p : PS) : Prop := Dirty p ∨ TablesGood p
 
+/-- the allocation numbers of the `@reserve` nodes recorded so far are below the next free
+    number and pairwise different -/
+def RInv (p : PS) : Prop :=
+  (∀ x ∈ p.reserves, x.2 < p.nextId) ∧ p.reserves.Pairwise (fun x y => x.2 ≠ y.2)
+
 structure Ext (p p' : PS) : Prop where
   dirty : Dirty p → Dirty p'
   good : Good p → Good p'
+  rinv : RInv p → RInv p'
 
-theorem Ext.rfl' (p : PS) : Ext p p := ⟨id, id⟩
+theorem Ext.rfl' (p : PS) : Ext p p := ⟨id, id, id⟩
 theorem Ext.trans {p q r : PS} (h1 : Ext p q) (h2 : Ext q r) : Ext p r :=
-  ⟨fun h => h2.dirty (h1.dirty h), fun h => h2.good (h1.good h)⟩
+  ⟨fun h => h2.dirty (h1.dirty h), fun h => h2.good (h1.good h), fun h => h2.rinv (h1.rinv h)⟩
 theorem Frame.ext {p p' : PS} (f : Frame p p') : Ext p p' :=
   ⟨f.dirty, fun h => h.elim (fun d => Or.inl (f.dirty d)) fun g => Or.inr (by
-    unfold TablesGood at g ⊢; rw [f.ins, f.comps]; exact g)⟩
+    unfold TablesGood at g ⊢; rw [f.ins, f.comps]; exact g),
+   fun h => by unfold RInv at h ⊢; rw [f.res, f.nid]; exact h⟩
 
 /-- `b` holds unless an error was recorded -/
 def DG (p : PS) (b : Bool) : Prop := Dirty p ∨ b = true
@@ -606,9 +615,41 @@ end Tw
 
 namespace Tw
 
+theorem mapSet_rids (m : List (Bytes × Nat)) (k : Bytes) (rid : Nat) (hlt : ∀ x ∈ m, x.2 < rid)
+    (hp : m.Pairwise (fun x y => x.2 ≠ y.2)) : (mapSet m k rid).Pairwise (fun x y => x.2 ≠ y.2) := by
+  induction m with
+  | nil => simp [mapSet]
+  | cons x r ih =>
+    obtain ⟨k', v'⟩ := x
+    have hp' := List.pairwise_cons.mp hp
+    unfold mapSet
+    split
+    · refine List.pairwise_cons.mpr ⟨?_, hp'.2⟩
+      intro y hy
+      have := hlt y (List.mem_cons_of_mem _ hy)
+      show rid ≠ y.2
+      omega
+    · refine List.pairwise_cons.mpr ⟨?_, ih (fun y hy => hlt y (List.mem_cons_of_mem _ hy)) hp'.2⟩
+      intro y hy
+      rcases mapSet_mem _ _ _ _ hy with hy | hy
+      · exact hp'.1 y hy
+      · rw [hy]
+        have := hlt (k', v') List.mem_cons_self
+        show v' ≠ rid
+        omega
+
+/-- `@reserve`: the node gets the next free number -/
+theorem ext_reserve (p : PS) (name : Bytes) :
+    Ext p { p with reserves := mapSet p.reserves name p.nextId, nextId := p.nextId + 1 } := by
+  refine ⟨fun d => d, fun g => g, fun r => ⟨?_, mapSet_rids _ _ _ r.1 r.2⟩⟩
+  intro x hx
+  rcases mapSet_mem _ _ _ _ hx with hx | hx
+  · exact Nat.lt_succ_of_lt (r.1 x hx)
+  · rw [hx]; exact Nat.lt_succ_self _
+
 theorem ext_setInsert (p : PS) (name : Bytes) (ins : InsertDef) (h : DG p ins.badFree) :
     Ext p { p with inserts := mapSet p.inserts name ins } := by
-  refine ⟨fun d => d, fun g => ?_⟩
+  refine ⟨fun d => d, fun g => ?_, fun r => r⟩
   rcases h with h | h
   · exact Or.inl h
   · rcases g with g | g
@@ -619,9 +660,9 @@ theorem ext_setInsert (p : PS) (name : Bytes) (ins : InsertDef) (h : DG p ins.ba
       · exact g.1 x hx
       · rw [hx]; exact h
 
-theorem ext_addComponent (p : PS) (cu : CompUse) (n : Nat) (h : Dirty p ∨ SlotsGood cu.slots) :
+theorem ext_addComponent (p : PS) (cu : CompUse) (n : Nat) (hn : p.nextId ≤ n) (h : Dirty p ∨ SlotsGood cu.slots) :
     Ext p { p with components := p.components ++ [cu], nextId := n } := by
-  refine ⟨fun d => d, fun g => ?_⟩
+  refine ⟨fun d => d, fun g => ?_, fun r => ⟨fun x hx => Nat.lt_of_lt_of_le (r.1 x hx) hn, r.2⟩⟩
   rcases h with h | h
   · exact Or.inl h
   · rcases g with g | g
@@ -736,9 +777,9 @@ theorem componentStmt_ok (hpe : ∀ prec p, EOk p (pe prec p))
       · exact ⟨e13.trans e4, Or.inl rfl⟩
       · have h5 := componentSlots_ok hslots q4.2
         generalize componentSlots pslots q4.2 = q5 at h5 ⊢
-        refine ⟨((e13.trans e4).trans h5.1).trans (ext_addComponent _ _ _ h5.2), Or.inr ?_⟩
+        refine ⟨((e13.trans e4).trans h5.1).trans (ext_addComponent _ _ _ (Nat.le_succ _) h5.2), Or.inr ?_⟩
         simp only [Stmt.badFree]
-        exact DG.mono ((e4.trans h5.1).trans (ext_addComponent _ _ _ h5.2)) (h3.2 arg rfl)
+        exact DG.mono ((e4.trans h5.1).trans (ext_addComponent _ _ _ (Nat.le_succ _) h5.2)) (h3.2 arg rfl)
 
 theorem statementBody_ok (hpe : ∀ prec p, EOk p (pe prec p)) (hpl : ∀ t p, LOk p (pl t p))
     (hbody : ∀ p, BOk p (pbody p))
@@ -758,12 +799,12 @@ theorem statementBody_ok (hpe : ∀ prec p, EOk p (pe prec p)) (hpl : ∀ t p, L
   · -- @use
     split
     · exact ⟨ext_expectPeek _ _, Or.inl rfl⟩
-    · exact ⟨(ext_expectPeek _ _).trans ((ext_next _).trans ((frame_aliasPath _ _).ext.trans ⟨fun d => d, fun g => g⟩)),
+    · exact ⟨(ext_expectPeek _ _).trans ((ext_next _).trans ((frame_aliasPath _ _).ext.trans ⟨fun d => d, fun g => g, fun r => r⟩)),
         Or.inr (DG.tt _)⟩
   · -- @reserve
     split
     · exact ⟨ext_expectPeek _ _, Or.inl rfl⟩
-    · exact ⟨(ext_expectPeek _ _).trans ((ext_next _).trans ⟨fun d => d, fun g => g⟩), Or.inr (DG.tt _)⟩
+    · exact ⟨(ext_expectPeek _ _).trans ((ext_next _).trans (ext_reserve _ _)), Or.inr (DG.tt _)⟩
   · exact insertStmt_ok hpe hbody p
   · exact condDirective_ok hpe p _ (fun _ _ => by simp [Stmt.badFree])
   · exact condDirective_ok hpe p _ (fun _ _ => by simp [Stmt.badFree])
@@ -973,10 +1014,12 @@ structure Program.Whole (prog : Program) : Prop where
   stmts : Stmt.badFreeList prog.stmts = true
   inserts : ∀ x ∈ prog.inserts, x.2.badFree = true
   slots : ∀ cu ∈ prog.components, SlotsGood cu.slots
+  reserveIds : prog.reserves.Pairwise (fun x y => x.2 ≠ y.2)
 
 theorem finishParse_ok (ic : Bool) (first : Token) (stmts : Option (List Stmt)) (p1 : PS) (prog : Program)
     (h : finishParse ic first stmts p1 = .ok prog) :
-    ¬ Dirty p1 ∧ prog.stmts = stmts.getD [] ∧ prog.inserts = p1.inserts ∧ prog.components = p1.components := by
+    ¬ Dirty p1 ∧ prog.stmts = stmts.getD [] ∧ prog.inserts = p1.inserts ∧ prog.components = p1.components ∧
+      prog.reserves = p1.reserves := by
   have clean : ∀ q : PS, ¬ q.oof = true → q.errors = [] → ¬ Dirty q := by
     intro q h1 h2 hd
     rcases hd with hd | hd
@@ -991,7 +1034,7 @@ theorem finishParse_ok (ic : Bool) (first : Token) (stmts : Option (List Stmt)) 
     · split at h
       · cases h
       · cases h
-        exact ⟨clean p1 ‹_› ‹_›, rfl, rfl, rfl⟩
+        exact ⟨clean p1 ‹_› ‹_›, rfl, rfl, rfl, rfl⟩
   | some ss =>
     cases ic with
     | true =>
@@ -1009,7 +1052,7 @@ theorem finishParse_ok (ic : Bool) (first : Token) (stmts : Option (List Stmt)) 
       · split at h
         · cases h
         · cases h
-          exact ⟨clean p1 ‹_› ‹_›, rfl, rfl, rfl⟩
+          exact ⟨clean p1 ‹_› ‹_›, rfl, rfl, rfl, rfl⟩
 
 theorem parseSource_whole (src : Bytes) (base : Nat) (prog : Program) (h : parseSource src base = .ok prog) :
     prog.Whole := by
@@ -1028,9 +1071,18 @@ theorem parseSource_whole (src : Bytes) (base : Nat) (prog : Program) (h : parse
           · exact frame_noteIllegal _ _
         exact f.ext.good (Or.inr ⟨fun x hx => (by cases hx), fun x hx => (by cases hx)⟩)
       have hl := parseProgramLoop_ok (parseFuel lr.toks) [] (initParser lr.toks base) (DG.tt _)
-      obtain ⟨hc, h1, h2, h3⟩ := finishParse_ok _ _ _ _ _ h
+      obtain ⟨hc, h1, h2, h3, h4⟩ := finishParse_ok _ _ _ _ _ h
       have hg := (hl.1.good hg0).resolve_left hc
-      refine ⟨?_, by rw [h2]; exact hg.1, by rw [h3]; exact hg.2⟩
+      have hr0 : RInv (initParser lr.toks base) := by
+        have f : Frame ({ toks := lr.toks, nextId := base } : PS) (initParser lr.toks base) := by
+          unfold initParser
+          simp only []
+          split
+          · exact (frame_noteIllegal _ _).trans (frame_noteIllegal _ _)
+          · exact frame_noteIllegal _ _
+        exact f.ext.rinv ⟨fun x hx => (by cases hx), List.Pairwise.nil⟩
+      have hr := hl.1.rinv hr0
+      refine ⟨?_, by rw [h2]; exact hg.1, by rw [h3]; exact hg.2, by rw [h4]; exact hr.2⟩
       rw [h1]
       cases hs : (parseProgramLoop (parseFuel lr.toks) [] (initParser lr.toks base)).1 with
       | none => rfl
